@@ -403,3 +403,134 @@ SPEC['get_upgrade_status'] = dict(
     kind='read', args=lambda r: {}, req=lambda a: (0x2c, 0x34, 0, P()),
     res=lambda a, d: obj('UpgradeStatus', command_in_progress=d[1], last_completion_code=d[2]))
 SPEC['query_selftest_results'] = dict(kind='read', args=lambda r: {}, req=lambda a: (0x2c, 0x36, 0, P()), res=selftest_res)
+
+
+# --- PICMG E-Keying port state, signaling class; MicroTCA power channels ---------------------------
+PORT_CH = [0, 1, 15, 63]
+
+
+def link_args(rng):
+    flags = rng.choice([0x1, 0x3, 0x7, 0xf, 0xf, 0x8, rng.randrange(16)])
+    return {'link_descr': Bag('LinkDescriptor', channel=rng.choice(PORT_CH), interface=rng.randrange(4), link_flags=flags,
+                              type=small(rng, 16), sig_class=small(rng, 16), extension=small(rng, 16), grouping_id=u8(rng)),
+            'state': rng.randrange(2)}
+
+
+def link_req(a):
+    l = a['link_descr']
+    return (0x2c, 0x0e, 0, P(l.channel | l.interface << 6, l.link_flags | l.type << 4, l.sig_class | l.extension << 4,
+                             l.grouping_id, a['state']))
+
+
+def port_res(a, d):
+    if len(d) < 6:
+        return 'UNDECIDED'      # no link on this channel: whether the library may fail here cannot be decided offline
+    return [obj('LinkDescriptor', channel=d[1] & 0x3f, interface=d[1] >> 6, link_flags=d[2] & 0xf, type=d[2] >> 4,
+                sig_class=d[3] & 0xf, extension=d[3] >> 4, grouping_id=d[4]), d[5]]
+
+
+def pwr_status_res(a, d):
+    b = d[3]
+    return obj('PowerChannelStatus', present=b & 1, management_power=b >> 1 & 1, management_power_overcurrent=b >> 2 & 1,
+               enable=b >> 3 & 1, payload_power=b >> 4 & 1, payload_power_overcurrent=b >> 5 & 1, pwr_on=b >> 6 & 1)
+
+
+def guid_res(a, d):
+    r = list(reversed(d))
+    h = lambda x: ''.join('%02x' % b for b in x)  # noqa
+    return obj('DeviceGuid', device_guid=bytes(d),
+               device_guid_string='-'.join([h(r[0:4]), h(r[4:6]), h(r[6:8]), h(r[8:10]), h(r[10:16])]))
+
+
+def authcap_res(a, d):
+    names = [(0, 'none'), (1, 'md2'), (2, 'md5'), (4, 'straight'), (5, 'oem_proprietary')]
+    return obj('ChannelAuthenticationCapabilities', channel=d[0], auth_types=[n for i, n in names if d[1] >> i & 1],
+               ipmi_1_5=not d[1] & 0x80, ipmi_2_0=bool(d[1] & 0x80))
+
+
+def rollback_res(a, d):
+    if len(d) > 2 and d[2]:
+        return obj('RollbackStatus', percent_complete=d[2])
+    return obj('RollbackStatus')
+
+
+def msg(name, **kw):
+    return obj(name, completion_code=0, **kw)
+
+
+def bits(**kw):
+    return obj('bits', **kw)
+
+
+def i2c_args(rng, data=True, count=True):
+    a = {'bus_type': rng.randrange(2), 'bus_id': small(rng, 8), 'channel': small(rng, 16),
+         'address': rng.choice([0, 0x50, 0x51, 0x7f])}
+    if count:
+        a['count'] = rng.choice([0, 1, 2, 8])
+    if data:
+        a['data'] = rng.choice([None, b'', bytes([1]), bytes([0, 16, 255])]) if count else bytes([u8(rng), u8(rng)])
+    return a
+
+
+def i2c_req(count=None, data='arg'):
+    def f(a):
+        n = a['count'] if count is None else count
+        dd = (a.get('data') or b'') if data == 'arg' else b''
+        return (6, 0x52, 0, bytes([a['bus_type'] | a['bus_id'] << 1 | a['channel'] << 4, a['address'] << 1, n]) + bytes(dd))
+    return f
+
+
+def pwr_reading_res(a, d):
+    le = lambda x: sum(b << (8 * i) for i, b in enumerate(x))  # noqa
+    return msg('GetPowerReading', group_extension_id=d[0], current_power=le(d[1:3]), minimum_power=le(d[3:5]),
+               maximum_power=le(d[5:7]), average_power=le(d[7:9]), timestamp=le(d[9:13]), period=le(d[13:17]),
+               reading_state=d[17])
+
+
+SPEC.update({
+    'set_port_state': dict(kind='write', args=link_args, req=link_req, res=lambda a, d: None),
+    'get_port_state': dict(kind='read', args=lambda r: {'channel_number': r.choice(PORT_CH), 'channel_interface': r.randrange(4)},
+                           req=lambda a: (0x2c, 0x0f, 0, P(a['channel_number'] | a['channel_interface'] << 6)), res=port_res),
+    'set_signaling_class': dict(kind='write', args=lambda r: {'interface': r.randrange(4), 'channel': r.choice(PORT_CH),
+                                                               'signaling_class': small(r, 16)},
+                                req=lambda a: (0x2c, 0x3b, 0, P(a['channel'] | a['interface'] << 6, a['signaling_class'])),
+                                res=lambda a, d: None),
+    'get_signaling_class': dict(kind='read', args=lambda r: {'interface': r.randrange(4), 'channel': r.choice(PORT_CH)},
+                                req=lambda a: (0x2c, 0x3c, 0, P(a['channel'] | a['interface'] << 6)),
+                                res=lambda a, d: d[2] & 0xf),
+    'send_channel_power': dict(kind='write',
+                               args=lambda r: {'channel': r.choice([1, 2, 3, 16]), 'enable': r.choice([True, False]),
+                                               'current_limit': r.choice([0, 1, 2, 7, 25]), 'primary_pm': r.choice([1, 2]),
+                                               'backup_pm': r.choice([0, 2])},
+                               req=lambda a: (0x2c, 0x24, 0, P(a['channel'], 5 if a['enable'] else 4, a['current_limit'] * 10,
+                                                              a['primary_pm'], a['backup_pm'])),
+                               res=lambda a, d: msg('SendPowerChannelControl', picmg_identifier=d[0])),
+    'get_power_channel_status': dict(kind='read', args=lambda r: {'start': r.choice([1, 2, 3, 16])},
+                                     req=lambda a: (0x2c, 0x25, 0, P(a['start'], 1)), res=pwr_status_res),
+    'get_pm_global_status': dict(kind='read', args=lambda r: {}, req=lambda a: (0x2c, 0x25, 0, P(1, 1)),
+                                 res=lambda a, d: obj('GlobalStatus', role=d[2] & 1, management_power_good=bool(d[2] & 2),
+                                                      payload_power_good=bool(d[2] & 4), unidentified_fault=bool(d[2] & 8))),
+    'send_pm_heartbeat': dict(kind='write', args=lambda r: {}, req=lambda a: (0x2c, 0x28, 0, P(0, 0)),
+                              res=lambda a, d: msg('SendPmHeartbeat', picmg_identifier=d[0])),
+    # --- device GUID, channel authentication capabilities
+    'get_device_guid': dict(kind='read', args=lambda r: {}, req=lambda a: (6, 0x08, 0, b''), res=guid_res),
+    'get_channel_authentication_capabilities': dict(
+        kind='read', args=lambda r: {'channel': chan(r), 'priv_lvl': small(r, 6)},
+        req=lambda a: (6, 0x38, 0, bytes([a['channel'], a['priv_lvl']])), res=authcap_res),
+    # --- HPM.1 rollback
+    'query_rollback_status': dict(kind='read', args=lambda r: {}, req=lambda a: (0x2c, 0x37, 0, P()), res=rollback_res),
+    'initiate_manual_rollback': dict(kind='write', args=lambda r: {}, req=lambda a: (0x2c, 0x38, 0, P()),
+                                     res=lambda a, d: obj('RollbackStatus')),
+    # --- DCMI
+    'get_dcmi_capabilities': dict(kind='read', args=lambda r: {'selector': small(r, 6)},
+                                  req=lambda a: (0x2c, 0x01, 0, bytes([0xdc, a['selector']])),
+                                  res=lambda a, d: msg('GetDcmiCapabilities', group_extension_id=d[0],
+                                                       specification_conformence=bits(major=d[1], minor=d[2]),
+                                                       parameter_revision=d[3], parameter_data=bytes(d[4:]))),
+    'get_power_reading': dict(kind='read', args=lambda r: {'mode': r.choice([1, 2]), 'attributes': u8(r)},
+                              req=lambda a: (0x2c, 0x02, 0, bytes([0xdc, a['mode'], a['attributes'], 0])), res=pwr_reading_res),
+    # --- I2C master write-read
+    'i2c_write_read': dict(kind='write', args=lambda r: i2c_args(r), req=i2c_req(), res=lambda a, d: bytes(d)),
+    'i2c_read': dict(kind='read', args=lambda r: i2c_args(r, data=False), req=i2c_req(data=None), res=lambda a, d: bytes(d)),
+    'i2c_write': dict(kind='write', args=lambda r: i2c_args(r, count=False), req=i2c_req(count=0), res=lambda a, d: None),
+})
